@@ -97,9 +97,16 @@ func runServer(chk *vcommon.Check, thorough bool) {
 		for L := 0; L <= maxLen; L++ {
 			st := newStore(first, chain[:L])
 			srv := &certexchange.Server{NetworkName: nn, Host: serverHost, Store: st}
-			if err := srv.Start(bg); err != nil {
+			// the context given to Start is a start-up context: for every other store it ends as soon as Start returns,
+			// which must not stop the started server
+			startCtx, endStart := context.WithCancel(bg)
+			if err := srv.Start(startCtx); err != nil {
 				panic(err)
 			}
+			if L%2 == 1 {
+				endStart()
+			}
+			defer endStart()
 			pending := first + uint64(L)
 			if L == 0 {
 				pending = 0 // an empty store advertises 0
